@@ -20,6 +20,8 @@
 #include <soundswallower/err.h>
 #include <soundswallower/fe.h>
 #include <soundswallower/feat.h>
+#include <soundswallower/decoder.h>
+#include <soundswallower/acmod.h>
 
 #define NS 8000
 static long cases, distinct, fails;
@@ -133,6 +135,47 @@ static void one(const char *cfgtext, int cepstral, int sig, int as_float)
     config_free(cfg);
 }
 
+/* Histories: the normalisation state is shared by consecutive utterances.  Every sequence of three utterances drawn from
+ * {digital silence, speech} x {one full-utterance call (batch CMN), streamed in blocks (live CMN)} on one real decoder
+ * (bundled en-us model, its own configuration): after every utterance the state and its exported text are finite. */
+static void histories(void)
+{
+    const char *repo = getenv("SSW_REPO") ? getenv("SSW_REPO") : "/repo";
+    char path[600]; static short speech[16000], silence[16000]; size_t n;
+    FILE *f; config_t *c; decoder_t *d; int code;
+    snprintf(path, sizeof path, "%s/tests/data/goforward.raw", repo);
+    f = fopen(path, "rb");
+    if (!f) { printf("FAIL cannot open %s\n", path); fails++; return; }
+    if (fseek(f, 2 * 7000, SEEK_SET) != 0) { fclose(f); return; }
+    n = fread(speech, 2, 16000, f); fclose(f);
+    c = config_init(NULL);
+    snprintf(path, sizeof path, "%s/model/en-us", repo);
+    config_set_str(c, "hmm", path); config_set_str(c, "loglevel", "FATAL");
+    d = decoder_init(c);
+    if (!d) { printf("FAIL decoder_init\n"); fails++; return; }
+    snprintf(path, sizeof path, "%s/tests/data/goforward.gram", repo);
+    decoder_set_jsgf_file(d, path);
+    for (code = 0; code < 64; code++) {
+        int u, x = code; char hist[200] = ""; 
+        decoder_set_cmn(d, "40,3,-1,0,0,0,0,0,0,0,0,0,0");
+        for (u = 0; u < 3; u++, x /= 4) {
+            int sil = x & 1, stream = x >> 1 & 1, q, bad = 0; short *a = sil ? silence : speech; size_t pos = 0;
+            cmn_t *cm; const char *r;
+            snprintf(hist + strlen(hist), sizeof hist - strlen(hist), "%s%s %s", u ? ", " : "", sil ? "silence" : "speech", stream ? "streamed" : "in one full-utterance call");
+            decoder_start_utt(d);
+            if (stream) while (pos < n) { size_t k = n - pos < 2048 ? n - pos : 2048; decoder_process_int16(d, a + pos, k, 0, 0); pos += k; }
+            else decoder_process_int16(d, a, n, 0, 1);
+            decoder_end_utt(d);
+            cases++; if (u) distinct++;
+            cm = d->acmod->fcb->cmn_struct;
+            for (q = 0; cm && q < cm->veclen; q++) if (!isfinite((double)cm->cmn_mean[q])) bad = 1;
+            r = decoder_get_cmn(d, 0);
+            if (bad || (r && (strstr(r, "nan") || strstr(r, "inf")))) { if (fails++ < 10) printf("FAIL non-finite channel-normalisation state after the utterances: %s (exported text \"%.60s\")\n", hist, r ? r : ""); break; }
+        }
+    }
+    decoder_free(d);
+}
+
 int main(int argc, char **argv)
 {
     static const char *TR[] = { "dct", "legacy", "htk" };
@@ -140,7 +183,7 @@ int main(int argc, char **argv)
     static const char *CMN[] = { "live", "batch", "none" };
     int t, sp, rn, dc, lf, sig, fl, c, vn;
     (void)argc; (void)argv;
-    err_set_loglevel(ERR_FATAL + 1);
+    err_set_loglevel(ERR_FATAL);
     for (t = 0; t < 3; t++) for (sp = 0; sp < 3; sp++) for (rn = 0; rn < 2; rn++) for (dc = 0; dc < 2; dc++) for (lf = 0; lf < 2; lf++) {
         for (c = 0; c < (sp == 0 ? 3 : 1); c++) for (vn = 0; vn < (sp == 0 && c == 1 ? 2 : 1); vn++) {   /* varnorm exists in batch mode only (live mode: E_FATAL "not implemented") */
             char cfg[500];
@@ -149,6 +192,8 @@ int main(int argc, char **argv)
             for (sig = 0; sig < NSIG; sig++) for (fl = 0; fl < 2; fl++) one(cfg, sp == 0, sig, fl);
         }
     }
+    histories();
+    printf("SAMPLE history: silence in one full-utterance call, silence streamed, speech streamed -> state finite after each\n");
     {
         int i;
         for (i = 0; i < nsample; i++) printf("SAMPLE %s\n", sample[i]);
